@@ -305,6 +305,9 @@ fn header_sets() -> Vec<(&'static str, Vec<Vec<u8>>, Vec<Vec<u8>>)> {
         ("client sends two authorization headers", vec![hl("X-MS-Azure-Host-Authorization", "Azure-HMAC-SHA256 someone 00")], vec![hl("x-ms-azure-host-authorization", "junk")]),
         ("client sends all proxy headers twice", vec![hl("x-ms-azure-host-claims", "{ \"isRoot\": \"true\"}"), hl("x-ms-azure-host-date", "a"), hl("x-ms-azure-host-authorization", "b")],
             vec![hl("X-MS-AZURE-HOST-CLAIMS", "c"), hl("X-MS-AZURE-HOST-DATE", "d"), hl("X-MS-AZURE-HOST-AUTHORIZATION", "e")]),
+        // an Expect header is relayed like any other header, so it is signed like any other header (an expectation hyper's server does not act on)
+        ("expect header", vec![], vec![hl("Expect", "x-vx-nothing")]),
+        ("expect header, upper case, with others", vec![hl("EXPECT", "x-vx-nothing")], vec![hl("x-ms-version", "2012-11-30")]),
         ("connection: close", vec![], vec![hl("Connection", "close")]),
         ("connection: keep-alive", vec![], vec![hl("Connection", "keep-alive"), hl("Keep-Alive", "timeout=5")]),
         ("host with port", vec![hl("Host", "168.63.129.16:80")], vec![]),
